@@ -182,9 +182,9 @@ def run_one(key, idx, seed):
         with open(os.path.join(scratch, file), "w") as f:
             f.write(mutated)
         env = dict(os.environ, PYTHONPATH=scratch)
-        cmd = [py, "-m", "pytest", "-q", "-x", "-p", "no:cacheprovider", "--timeout=600"] + [os.path.join(scratch, t) for t in tests]
+        cmd = [py, "-m", "pytest", "-q", "-x", "-p", "no:cacheprovider", "--timeout=600"] + list(tests)  # relative to cwd=scratch, so that --deselect ids match
         if "numpy_pickle" in " ".join(tests):
-            cmd += [a.replace("joblib/test", os.path.join(scratch, "joblib/test")) for a in KNOWN_4]
+            cmd += KNOWN_4
         try:
             tr = subprocess.run(cmd, capture_output=True, text=True, timeout=1500, env=env, cwd=scratch)
             tests_ok = tr.returncode == 0
